@@ -113,7 +113,7 @@ def as_kind_recycled(chunk: bytes, kind: int):
     """Like as_kind, but mutable kinds are views of a receive buffer the caller owns; returns (object, recycle)
     where recycle() overwrites that buffer (what a transport does with its read buffer once data_received
     has returned).  A helper that keeps a reference instead of a copy sees the scribble."""
-    k = kind % 4
+    k = kind % 6
     if k == 0:
         return bytes(chunk), (lambda: None)
     if k == 1:
@@ -122,6 +122,10 @@ def as_kind_recycled(chunk: bytes, kind: int):
     elif k == 2:
         buf = bytearray(chunk)
         obj = memoryview(buf)
+    elif k in (4, 5) and len(chunk) and len(chunk) % (2 if k == 4 else 4) == 0:
+        # bytes-like objects whose len() is an ITEM count, not a byte count (array('H') / cast('I') views)
+        buf = bytearray(chunk)
+        obj = memoryview(buf).cast("H" if k == 4 else "I")
     else:
         buf = bytearray(b"\xaa\x00\x01" + bytes(chunk) + b"\x00\x55")
         obj = memoryview(buf)[3 : 3 + len(chunk)]
